@@ -93,7 +93,7 @@ CLAIMS = {
   technique="Coq state-machine proof + refutation theorem + differential histories against the real Compile"),
  "C19": dict(
   category="proof",
-  text="Coq theorems C19_balanced / C19_every_call (instance of Inv.m_invariant; every grammar incl. memoized and left-recursive rules, failing checks, externs, any hooks, any decision-point configuration): the tracer callback sequence of a returning parse is balanced (each print_trace_start followed by exactly one matching print_trace_result; running depth never below zero, zero at the end), a non-returning run produced a prefix of one. Correspondence: the recording tracer's sequence equals the model's log exactly on every stream case. Oracle: balance of the implementation's own sequence; NoopTracer vs recording tracer vs the real IndentedTracer (debug build, overflow checks) return the same result. Partial: 'the tracer log is write-only' (C19_transparent) is not yet a theorem about the model; it is covered by the oracle.",
+  text="Coq theorems C19_tracer_independent (TraceFrame.frame: for every grammar, stateful hooks, every setting of the decision points and fuel, two runs whose global states differ only in what the tracer has been told return the same result and leave cache, user state and ghost logs equal: the tracer cannot influence the parse), C19_balanced / C19_every_call (instance of Inv.m_invariant; every grammar incl. memoized and left-recursive rules, failing checks, externs, any hooks, any decision-point configuration): the tracer callback sequence of a returning parse is balanced (each print_trace_start followed by exactly one matching print_trace_result; running depth never below zero, zero at the end), a non-returning run produced a prefix of one. Correspondence: the recording tracer's sequence equals the model's log exactly on every stream case. Oracle: balance of the implementation's own sequence; NoopTracer vs recording tracer vs the real IndentedTracer (debug build, overflow checks) return the same result. Partial: 'the tracer log is write-only' (C19_transparent) is not yet a theorem about the model; it is covered by the oracle.",
   note=TB,
   technique="Coq generic invariant theorem instantiated with trace balance + exact trace correspondence"),
  "C20": dict(
